@@ -554,9 +554,11 @@ impl GremlinTranslator {
                 Ok((plan, None))
             }
             ast::Step::Dedup(keys) => {
-                // If keys are specified, use column-specific dedup
+                // If keys are specified, use column-specific dedup; a bare dedup()
+                // compares the current traverser, not the whole path that led to it
+                // (two parallel edges reach the same vertex)
                 let columns = if keys.is_empty() {
-                    None
+                    Some(vec![current_var.to_string()])
                 } else {
                     Some(keys.clone())
                 };
